@@ -148,7 +148,10 @@ def GEOMEAN(*args):
 def AVERAGEIFS(average_range, *criteria):
     if len(criteria) % 2 != 0:
         return error.ERROR
-    range_and_preds = list(zip(criteria[::2], (utils.parse_criteria(criterion) for criterion in criteria[1::2])))
+    # a range arrives from the host as rows of cells: walk it cell by cell, like AVERAGEIF
+    average_range = utils.flatten(average_range)
+    range_and_preds = list(zip((utils.flatten(r) for r in criteria[::2]),
+                               (utils.parse_criteria(criterion) for criterion in criteria[1::2])))
     sum_value = 0
     count_value = 0
     for i, a in enumerate(average_range):
@@ -164,7 +167,10 @@ def AVERAGEIFS(average_range, *criteria):
 def MAXIFS(sum_args, *criteria):
     if len(criteria) % 2 != 0:
         return error.ERROR
-    range_and_preds = list(zip(criteria[::2], (utils.parse_criteria(criterion) for criterion in criteria[1::2])))
+    # a range arrives from the host as rows of cells: walk it cell by cell
+    sum_args = utils.flatten(sum_args)
+    range_and_preds = list(zip((utils.flatten(r) for r in criteria[::2]),
+                               (utils.parse_criteria(criterion) for criterion in criteria[1::2])))
     b = None
     for i, a in enumerate(sum_args):
         if all(pred(criteria_range[i]) for criteria_range,pred in range_and_preds):
